@@ -41,6 +41,7 @@ type Task struct {
 	adopted bool
 	fn      func()
 	gid     uint64
+	lib     string // label of the library call the task was inside when it parked
 }
 
 func NewSched(r *Run) *Sched {
@@ -109,9 +110,18 @@ func (s *Sched) Yield(site string, key ...int) {
 	t.site = site
 	t.key = append(t.key[:0], key...)
 	t.parked = true
+	t.lib = CurLib()
+	if !t.adopted {
+		// a goroutine the library started runs inside its starter's call and leaves the label to its siblings
+		SetCurLib("")
+	}
 	s.mu.Unlock()
 	select {
 	case <-t.resume:
+		SetCurLib(t.lib)
+		if t.lib != "" {
+			Beat(t.lib)
+		}
 	case <-s.abort:
 		runtime.Goexit()
 	}
@@ -138,6 +148,11 @@ func lessKey(a, b *Task) bool {
 // tick, if non-nil, is called after every step (invariant checks).
 func (s *Sched) Run(maxSteps int, tick func()) string {
 	for step := 0; ; step++ {
+		if l := CurLib(); l != "" {
+			// the task that runs now is inside a library call: should the bubble never become quiescent, that call is
+			// what made no progress
+			Beat(l)
+		}
 		synctest.Wait()
 		Beat("sched")
 		s.mu.Lock()
